@@ -63,7 +63,7 @@ func init() {
 			// DORMR2), whose length rule for a is that of an (n-l)×k matrix
 			e.tag = "/wantq-m<n-l"
 		}
-		if e.c.LW > 0 || e.c.X > 0 || e.c.Fault != "" || e.discover || e.tag != "" {
+		if e.c.LW > 0 || e.c.X > 0 || e.c.Fault != "" || e.discover || e.tag != "" || !docSays("Dggsvp3", "lwork must be -1 or greater than zero") {
 			q := make([]float64, 1)
 			impl.Dggsvp3(g.jobU, g.jobV, g.jobQ, g.m, g.p, g.n, nil, g.lda, nil, g.ldb, 0, 0, nil, g.ldu, nil, g.ldv, nil, g.ldq, make([]int, g.n), nil, q, -1)
 			mn = int(q[0])
@@ -96,7 +96,7 @@ func init() {
 			// DORMR2), whose length rule for a is that of an (n-l)×k matrix
 			e.tag = "/wantq-m<n-l"
 		}
-		if e.c.LW > 0 || e.c.X > 0 || e.c.Fault != "" || e.discover || e.tag != "" {
+		if e.c.LW > 0 || e.c.X > 0 || e.c.Fault != "" || e.discover || e.tag != "" || !docSays("Dggsvd3", "lwork must be -1 or greater than n") {
 			q := make([]float64, 1)
 			impl.Dggsvd3(g.jobU, g.jobV, g.jobQ, g.m, g.n, g.p, nil, g.lda, nil, g.ldb, nil, nil, nil, g.ldu, nil, g.ldv, nil, g.ldq, q, -1, make([]int, g.n))
 			mn = int(q[0])
